@@ -464,7 +464,41 @@ def c03_5(ctx):
 
 
 # ------------------------------------------------------------------ C03.6
+def _limit_scopes(ctx, fi):
+    """[(node, iterable text)] for every loop / comprehension of the function whose element length is compared with the 520-byte limit"""
+    node = sym.expanded(ctx, fi)
+    defs = df.single_defs(node)
+    is_limit = lambda e: "MAX_BLOB_LENGTH" in norm(df.expand(e, defs)) or df.const_int(df.expand(e, defs)) == 520
+    out = []
+    for n in ast.walk(node):
+        tgt = it = None
+        tests = []
+        if isinstance(n, ast.For):
+            tgt, it = n.target, n.iter
+            tests = [x for st in n.body for x in ast.walk(st) if isinstance(x, ast.Compare)]
+        elif isinstance(n, (ast.GeneratorExp, ast.ListComp, ast.SetComp)) and len(n.generators) == 1:
+            tgt, it = n.generators[0].target, n.generators[0].iter
+            tests = [x for x in ast.walk(n.elt) if isinstance(x, ast.Compare)] + [x for c in n.generators[0].ifs for x in ast.walk(c) if isinstance(x, ast.Compare)]
+        if tgt is None or not isinstance(tgt, ast.Name):
+            continue
+        for c in tests:
+            sides = [c.left] + list(c.comparators)
+            if any(norm(x) == "len(%s)" % tgt.id for x in sides) and any(is_limit(x) for x in sides):
+                out.append((n, norm(df.expand(it, defs))))
+                break
+    return out
+
+
 def c03_6(ctx):
+    # whatever function applies the limit, and in whatever form (loop, any(..)): the elements it ranges over are the INPUT STACK of
+    # the witness program, not the raw witness (whose last item, for P2WSH, is the script: up to 10000 bytes)
+    for nm in ("SegwitChecker.witness_program_tuple", "SegwitChecker._check_witness_program_v0"):
+        g = ctx.func(SEG, nm)
+        for node_, it_t in _limit_scopes(ctx, g):
+            raw = "witness_solution_stack" in it_t and "[:-1]" not in it_t and "_check_witness_program_v0" not in it_t
+            ctx.check(not raw, "witness-element-limit-scope:%s" % nm.split(".")[-1], ctx.where(g, node_),
+                      "%s applies the 520-byte element limit to `%s`, the raw witness, which for P2WSH includes the witness script itself: scripts over 520 bytes (consensus allows 10000) are rejected" % (nm, it_t[:70]),
+                      sample={"function": nm, "limit_ranges_over": it_t[:70]})
     f = ctx.func(SEG, "SegwitChecker.witness_program_tuple")
     loops = [n for n in body_nodes(f.node) if isinstance(n, ast.For) and any(isinstance(x, ast.If) and "MAX_BLOB_LENGTH" in norm(x.test) for x in n.body)]
     if not loops:
